@@ -67,6 +67,10 @@ def generate(seed, tier):
         # a peer whose selectors are real ranges (no CIDR block, ports first..last)
         sc['byz'] = {'kind': 'range_request', 'seed': r.randrange(2 ** 31)}
         sc['meta']['byz'] = 'range_request'
+    if r.random() < 0.25:
+        # a kernel with sub-policies, marks or interface ids: its ACQUIRE / EXPIRE events carry XFRMA_POLICY_TYPE, XFRMA_MARK, XFRMA_IF_ID
+        sc['kernel_event_attrs'] = r.sample(['policy_type', 'mark', 'if_id'], r.randint(1, 3))
+        sc['meta']['kernel_event_attrs'] = True
     return sc
 
 
